@@ -308,7 +308,8 @@ func fatalSignature(stage string, fi fatalInfo, icls string) string {
 		// which of the racing goroutines notices (reader or writer, and in which method) varies from run
 		// to run: the class is the container type
 		if r := receiverOf(site); r != "" {
-			site = r
+			// an iterator over the container reads the same Go map: object.MapIter -> object.Map
+			site = strings.TrimSuffix(r, "Iter")
 		}
 	} else {
 		site = collapse([]string{site})[0]
